@@ -1,14 +1,14 @@
 ------------------------------- MODULE MC_C17 -------------------------------
 (* Bounded model of `in $name` (property C17): every list name of at most MaxLen characters over  *)
-(* { a 1 _ . A - } on left-hand sides of the three list-capable types, for schemes that register   *)
+(* { a 1 _ . A - e-acute } on left-hand sides of the three list-capable types, for schemes that register   *)
 (* lists for different types in different orders (routing is by type, storage by index).           *)
 (* Expected: parse verdict (name made of a-z 0-9 _ and inner dots; a list registered for the type) *)
 (* and the matcher's answer on every context (sets / always / never).                              *)
 EXTENDS WfParser, WfEval, WfJson, Json, SequencesExt
 CONSTANT MaxLen
 VARIABLES cas
-Alpha == <<97, 49, 95, 46, 65, 45>>
-Names == {Strict([i \in 1..Len(b) |-> Alpha[b[i]]]) : b \in UNION {[1..n -> 1..6] : n \in 1..MaxLen}}
+Alpha == <<<<97>>, <<49>>, <<95>>, <<46>>, <<65>>, <<45>>, <<195, 169>>>>       \* a 1 _ . A - e-acute (UTF-8)
+Names == {FlatSeq(Strict([i \in 1..Len(b) |-> Alpha[b[i]]])) : b \in UNION {[1..n -> 1..7] : n \in 1..MaxLen}}
 Fields == <<[name |-> "i", ty |-> TInt, opt |-> TRUE], [name |-> "s", ty |-> TBytes, opt |-> TRUE], [name |-> "ip", ty |-> TIp, opt |-> TRUE],
             [name |-> "ai", ty |-> TArr(TInt), opt |-> TRUE]>>
 Sch(ls, ks) == [fields |-> Fields, funcs |-> <<>>, lists |-> ls, listkinds |-> ks, nne |-> TRUE]
